@@ -161,12 +161,34 @@ impl<'a> Visitor for Enumerate<'a> {
                 jobs.push((Op::Powf(pf), b));
             }
         }
+        // huge exponents on bases below one: the power and every derivative underflow to zero
+        for p in if F::PREC == 53 { [1e103, 1e155, 1e300] } else { [1e13, 1e20, 1e38] } {
+            for b in [0.5, 0.875] {
+                jobs.push((Op::Powf(F::from64(p).to64()), b));
+            }
+        }
+        // small and large bases
+        for p in [0.5, 1.5, -1.5, 3.0] {
+            for b in [1.2345678e-6, 1048576.0, 1e-12] {
+                if F::PREC == 53 || b > 1e-7 {
+                    jobs.push((Op::Powf(p), b));
+                }
+            }
+        }
         let n_powf = sweep_points::<F, D>(d, &l, &jobs, 2, &c, &exec_generic::<F, D>, self.stats);
         // ---- powd: dual exponents, full tensor grid of both operands within a budget
         let mut list: Vec<(Op, Vec<f64>)> = Vec::new();
         for &b in &[0.3125, 0.875, 1.25, 2.5, 17.0] {
             for &e in &[-1.5, 0.0, 0.5, 1.0, 2.0, 3.0] {
                 list.push((Op::Powd, vec![b, e]));
+            }
+        }
+        // small and large bases (the logarithm of the base must be accurate there too)
+        for &b in &[1.2345678e-6, 1e-12, 1048576.0] {
+            for &e in &[-1.5, 0.5, 2.0] {
+                if F::PREC == 53 || b > 1e-7 {
+                    list.push((Op::Powd, vec![b, e]));
+                }
             }
         }
         let budget = if self.mode == Mode::Quick { 600 } else { 60_000 };
